@@ -2,6 +2,21 @@
 // C18 (interceptors and stats handlers see every RPC exactly once). Both drive
 // the real larking Mux with scripted handlers whose every step is logged, and
 // decide from those logs plus what the client saw.
+//
+// Files: timeout.go (C15a grpc-timeout decoding, in-process), cancel.go (C15b
+// cancellation scenarios over a real server), c18.go (in-process RPC matrix,
+// oracles), sockets.go (C18 over a real server with the grpc-go client), ws.go
+// (C18 WebSocket lane), backend.go (real grpc.Server + reflection v1alpha
+// back-end for the proxied target), run.go (entry points, replay dispatch).
+//
+// Note on proxied client streams: larking's forwarder reads every message
+// after the first in a goroutine of its own. While defect D22 (stats payload
+// slicing in streamGRPC.RecvMsg) was present, a proxied client-streaming RPC
+// whose second or later message was shorter than five bytes panicked in that
+// goroutine, outside net/http's recover, and killed the whole process. The
+// generated proxied scripts therefore keep all request messages of one RPC in
+// the same size class, so that such a panic always hits the first RecvMsg,
+// where it is recovered and reported.
 package calls
 
 import (
